@@ -200,6 +200,37 @@ NEUTRAL = [
 
         self.list.lens[new_region as usize] += 1;
         self.list.lens[old_region as usize] -= 1;""")]),
+    dict(id="N25-derived-hash-discriminant-inside-every-arm", file="crates/stable_hash_derive/src/lib.rs",
+         edits=[("""                quote! {
+                    Self::#variant_name { #(#field_names),* } => {
+                        #(#field_hashes)*
+                    }
+                }""", """                quote! {
+                    Self::#variant_name { #(#field_names),* } => {
+                        #trait_crate_path::StableHash::stable_hash(&::std::mem::discriminant(self), state);
+                        #(#field_hashes)*
+                    }
+                }"""), ("""                quote! {
+                    Self::#variant_name(#(#field_bindings),*) => {
+                        #(#field_hashes)*
+                    }
+                }""", """                quote! {
+                    Self::#variant_name(#(#field_bindings),*) => {
+                        #trait_crate_path::StableHash::stable_hash(&::std::mem::discriminant(self), state);
+                        #(#field_hashes)*
+                    }
+                }"""), ("""                quote! {
+                    Self::#variant_name => {}
+                }""", """                quote! {
+                    Self::#variant_name => {
+                        #trait_crate_path::StableHash::stable_hash(&::std::mem::discriminant(self), state);
+                    }
+                }"""), ("""        #trait_crate_path::StableHash::stable_hash(
+            &::std::mem::discriminant(self),
+            state
+        );
+
+        match self {""", """        match self {""")]),
     # documented limitation (DESIGN 11.4b): moving an anchored statement into a new helper function makes the rule lose
     # its anchor; it then FAILS CLOSED with an `anchors missing` report instead of deciding.  Kept to watch that this
     # stays a coverage report and never turns into a wrong diagnosis.
